@@ -384,7 +384,7 @@ func (env *Env) fieldOf(x Value, name string, e *Expr) Value {
 		} else {
 			loc = &Loc{Kind: LRef, Ref: x.one(), Keys: refKeys(p.Elem()), Off: off, T: st.Field(idx).Type()}
 		}
-		return env.ex.readLoc(env.st, loc)
+		return env.typed(env.ex.readLoc(env.st, loc))
 	}
 	if st, ok := t.Underlying().(*types.Struct); ok {
 		idx, emb := findField(st, name)
@@ -433,8 +433,8 @@ func (env *Env) indexExpr(e *Expr) Value {
 	i := env.compile(e.Args[0], 0)
 	switch xt := x.T.Underlying().(type) {
 	case *types.Slice:
-		loc := &Loc{Kind: LElem, Ref: x.C[0], Idx: Add(x.C[1], i.one()), Keys: elemKeys(xt.Elem()), T: xt.Elem()}
-		return env.ex.readLoc(env.st, loc)
+		loc := &Loc{Kind: LElem, Ref: x.C[0], Idx: Idx(x.C[1], i.one()), Keys: elemKeys(xt.Elem()), T: xt.Elem()}
+		return env.typed(env.ex.readLoc(env.st, loc))
 	case *types.Map:
 		if mapKeySort(xt) == nil {
 			cfail("%s: map with composite key", e)
@@ -443,7 +443,7 @@ func (env *Env) indexExpr(e *Expr) Value {
 		return v
 	case *types.Basic:
 		if isString(x.T) {
-			return Value{T: types.Typ[types.Uint8], C: []*Term{UF("str.at", IntSort, x.one(), i.one())}}
+			return Value{T: types.Typ[types.Uint8], C: []*Term{UF("str_at", IntSort, x.one(), i.one())}}
 		}
 	case *types.Pointer:
 		if arr, ok := xt.Elem().Underlying().(*types.Array); ok {
@@ -459,6 +459,17 @@ func (env *Env) indexExpr(e *Expr) Value {
 	}
 	cfail("%s: cannot index %s", e, typeStr(x.T))
 	return Value{}
+}
+
+// typed records the type facts (ranges, allocatedness of references) of a closed value read from the heap.
+func (env *Env) typed(v Value) Value {
+	for _, c := range v.C {
+		if c.open {
+			return v
+		}
+	}
+	env.ex.assumeTyped(env.st, v)
+	return v
 }
 
 func isF64(v Value) bool { return len(v.C) == 1 && v.C[0].Sort == F64Sort }
@@ -486,6 +497,17 @@ func (env *Env) binary(e *Expr, pol int) Value {
 	b := env.compile(e.Args[1], 0)
 	switch e.Op {
 	case "==", "!=":
+		// comparison of a slice with nil: the nil slice has a nil base
+		if a.T == untypedNil && len(b.C) == 4 {
+			a, b = b, a
+		}
+		if b.T == untypedNil && len(a.C) == 4 {
+			eq := Eq(a.C[0], IntLit(0))
+			if e.Op == "!=" {
+				eq = Not(eq)
+			}
+			return boolVal(eq)
+		}
 		if len(a.C) != len(b.C) {
 			cfail("%s: operands have different shapes (%s vs %s)", e, typeStr(a.T), typeStr(b.T))
 		}
@@ -555,15 +577,15 @@ func (env *Env) binary(e *Expr, pol int) Value {
 	case StrSort:
 		switch e.Op {
 		case "<":
-			return boolVal(UF("str.lt", BoolSort, x, y))
+			return boolVal(UF("str_lt", BoolSort, x, y))
 		case ">":
-			return boolVal(UF("str.lt", BoolSort, y, x))
+			return boolVal(UF("str_lt", BoolSort, y, x))
 		case "<=":
-			return boolVal(Not(UF("str.lt", BoolSort, y, x)))
+			return boolVal(Not(UF("str_lt", BoolSort, y, x)))
 		case ">=":
-			return boolVal(Not(UF("str.lt", BoolSort, x, y)))
+			return boolVal(Not(UF("str_lt", BoolSort, x, y)))
 		case "+":
-			return Value{T: rt, C: []*Term{UF("str.cat", StrSort, x, y)}}
+			return Value{T: rt, C: []*Term{UF("str_cat", StrSort, x, y)}}
 		}
 	}
 	cfail("%s: operator %s not supported on %s", e, e.Op, x.Sort)
@@ -636,7 +658,13 @@ func (env *Env) quantifier(e *Expr, pol int, universal bool) Value {
 		return boolVal(f)
 	}
 	if universal {
-		return boolVal(Forall(bv.C, f, choosePatterns(bv.C, f)))
+		// flatten forall x. G ==> forall y. B into one quantifier (better triggers)
+		bound := bv.C
+		if inner := body.C[0]; inner.Op == "forall" {
+			bound = append(append([]*Term{}, bv.C...), inner.Bound...)
+			f = Implies(guard, inner.Args[0])
+		}
+		return boolVal(Forall(bound, f, choosePatterns(bound, f)))
 	}
 	return boolVal(Exists(bv.C, f))
 }
@@ -782,7 +810,7 @@ func (env *Env) callExpr(e *Expr, pol int) Value {
 			return intVal(x.C[3])
 		case *types.Basic:
 			if isString(x.T) {
-				return intVal(UF("str.len", IntSort, x.one()))
+				return intVal(UF("str_len", IntSort, x.one()))
 			}
 		case *types.Map:
 			_, l, _ := mapKeys(xt)
